@@ -98,6 +98,9 @@ impl<F: FixedChannelRegion> FixedChannelPlan<F> {
 }
 
 pub(crate) trait FixedChannelRegion: ChannelRegion {
+    /// Data rate mandated for join requests on the 500 kHz channels 64..=71
+    /// (SF8/500 kHz: DR4 in US915, DR6 in AU915).
+    const JOIN_DR_500KHZ: DR;
     fn uplink_channels() -> &'static [u32; 72];
     fn downlink_channels() -> &'static [u32; 8];
     fn get_rx_datarate(tx_dr: DR, rx1_dr_offset: u8, window: &Window) -> DR;
@@ -208,7 +211,7 @@ impl<F: FixedChannelRegion> RegionHandler for FixedChannelPlan<F> {
                 let dr = if channel < 64 {
                     DR::_0
                 } else {
-                    DR::_4
+                    F::JOIN_DR_500KHZ
                 };
                 (dr, channel)
             }
@@ -222,7 +225,7 @@ impl<F: FixedChannelRegion> RegionHandler for FixedChannelPlan<F> {
                     let dr = if channel < 64 {
                         DR::_0
                     } else {
-                        DR::_4
+                        F::JOIN_DR_500KHZ
                     };
                     (dr, channel)
                 // Alternatively, we will ask JoinChannel logic to determine a channel from the
